@@ -396,9 +396,18 @@ func Exec[S any](t *testing.T, c Check[S]) {
 	if c.Gen == nil {
 		return
 	}
+	pending := os.Getenv("VERIF_PENDING") != ""
 	rapid.Check(t, func(rt *rapid.T) {
 		s := c.Gen(rt)
+		if pending {
+			// lets the driver turn a death of the whole process (stack
+			// overflow, fatal runtime error) into a replayable case
+			r.Pending(s)
+		}
 		c.Run(r, rt, s)
+		if pending {
+			r.Done()
+		}
 	})
 }
 
